@@ -1988,6 +1988,42 @@ class StateEngine(object):
         That the methods are prefixed with "asl_state_" is a mitigation against
         accidentally or deliberately placing an invalid State type in the ASL.
         """
+        def defer_until_retry(delegate, retry_timeout):
+            """
+            Run delegate (the real Task, Parallel or Map state handler) when
+            any retry delay has expired. A retry that would only start at or
+            after the instant the execution's time limit runs out is not made:
+            the execution times out at that instant instead, like a Task or
+            Wait state that is still pending then (without this the retried
+            state only noticed the limit when its delay was over, however long
+            after the limit, a Task state even sending its request first).
+            """
+            if retry_timeout:
+                start_time = context["Execution"].get("StartTime")
+                execution_timestamp = parse_rfc3339_datetime(start_time).timestamp()
+                remaining = (execution_timestamp + timeout - time.time()) * 1000
+                if retry_timeout >= remaining:
+                    def on_execution_timeout():
+                        if self.branch_has_terminated(
+                            state_type, context, id, timeout, redelivered
+                        ):
+                            return
+                        handle_error(
+                            state,
+                            "States.ExecutionTimeout",
+                            ("Execution ran for longer than " +
+                             "the specified timeout value of " +
+                             f"{timeout} seconds.")
+                        )
+                        self.event_dispatcher.acknowledge(id)
+
+                    self.event_dispatcher.set_timeout(
+                        on_execution_timeout, remaining if remaining > 0 else 0
+                    )
+                    return
+
+            self.event_dispatcher.set_timeout(delegate, retry_timeout)
+
         def asl_state_Pass():
             """
             https://states-language.net/spec.html#pass-state
@@ -2329,7 +2365,7 @@ class StateEngine(object):
             asl_state_Task_delegate when any retry timeout has expired.
             """
             retry_timeout = context["State"].get("RetryTimeout", 0)
-            self.event_dispatcher.set_timeout(asl_state_Task_delegate, retry_timeout)
+            defer_until_retry(asl_state_Task_delegate, retry_timeout)
 
         def asl_state_Choice():
             """
@@ -2985,7 +3021,7 @@ class StateEngine(object):
             asl_state_Parallel_delegate when any retry timeout has expired.
             """
             retry_timeout = context["State"].get("RetryTimeout", 0)
-            self.event_dispatcher.set_timeout(asl_state_Parallel_delegate, retry_timeout)
+            defer_until_retry(asl_state_Parallel_delegate, retry_timeout)
 
         def get_start_index(context):
             """
@@ -3352,7 +3388,7 @@ class StateEngine(object):
             else:
                 retry_timeout = 0
             
-            self.event_dispatcher.set_timeout(asl_state_Map_delegate, retry_timeout)
+            defer_until_retry(asl_state_Map_delegate, retry_timeout)
 
         def asl_state_collect_results(state_type, own_id=None):
             """
